@@ -46,7 +46,8 @@ CHECKS = {
          "Every handler call, every wire unit lexed by the independent judge, both results, statistics and Close are recorded and "
          "validated by TLC against the property monitor B2FProps.tla (each event must be an enabled action; End requires "
          "CompleteExchange, exact statistics, both nil, both closed); the mechanism model B2F.tla is model-checked against the same "
-         "monitor properties.",
+         "monitor properties, and the same recorded executions are validated against it (B2FTrace.tla: silent steps inferred by TLC; "
+         "a rejection there alone is reported as SPEC-DRIFT).",
     note="Trusted: TLC, the wire lexer and bitwise CRC written from docs/F6FBB-B2F, byte identity by bytes.Equal, recorder order "
          "(events are appended inside the call path). Message sets and segmentations are sampled beyond the seed-independent core.",
     technique="TLA+ property monitor + mechanism model; TLC trace validation of recorded real two-station sessions",
@@ -57,7 +58,9 @@ CHECKS = {
          "others; thorough: all k), writer-sees-error / silent-success and in-flight-reverse-bytes delivered / dropped variants, storage "
          "failure at every inbound index, multi-fault sequences, each followed by a clean session on the same mailboxes; in-memory "
          "duplicate-suppressing handler and the real DirHandler. TLC validates every recorded session against B2FProps.tla: NoFalseSent "
-         "and the other invariants at every step, both Exchange calls return (watchdog), EndAll = delivered exactly once and reported.",
+         "and the other invariants at every step, both Exchange calls return (watchdog), EndAll = delivered exactly once and reported. "
+         "The faulty executions are also validated against the mechanism model B2F.tla with its Cut / StoreFail / WriteFails "
+         "environment (B2FTrace.tla; which units survive a cut is inferred by TLC).",
     note="Trusted: as C01, plus the cut model of the in-memory link. A DirHandler crash inside a session is C11's subject.",
     technique="fault enumeration on real sessions judged by TLC trace validation against the TLA+ monitor",
     design="4 C02"),
@@ -159,7 +162,7 @@ CHECKS = {
          "up to the padding; the B2 header is judged by an independent CRC. Reference -> library: token parses (nearest, farthest, "
          "shortest, random, literal-only; overlapping and initial-window matches) are validated and coded by TLC and the real Reader "
          "must decode them under several buffer sizes, with and without CRC, Close = nil.",
-    note="TLC evaluates ~2-3 k symbols/s, so reference decoding is budgeted (quick 60 k symbols, thorough 900 k incl. a stream crossing "
+    note="TLC evaluates ~1-3 k symbols/s, so reference decoding is budgeted (quick 200 k symbols plus a 48 k-symbol stream crossing the tree rebuild, thorough 900 k incl. a stream crossing "
          "the tree rebuild); larger inputs are covered by C06's self-consistency only.",
     technique="executable TLA+ codec evaluated by TLC as the independent implementation, both directions",
     design="4 C07"),
@@ -214,15 +217,18 @@ CHECKS = {
          "TCP with its own header lexer; schedules run in child processes: writes on ports 0..3 with/without digipeaters, refusals, "
          "inbound frames with TCP segmentation (mid-header, mid-data, byte-wise, coalesced), reader buffers 1..4096, foreign "
          "callsigns/ports/kinds, the accept path, bursts, malformed frames; AgwpePropsTrace.tla judges stream equality, frame "
-         "well-formedness, payload concatenation, the X, C/v, Y, d exchanges, API results and crashes.",
+         "well-formedness, payload concatenation, the X, C/v, Y, d exchanges, API results and crashes; AgwpeTrace.tla validates the "
+         "library's own debug log (frames read, frames dropped) plus the application's Read calls against the pipeline of Agwpe.tla "
+         "with inferred silent steps, so that a loss counts as the known drop-when-full finding only if the logged drops explain it.",
     note="Internal goroutine interleavings of the library are not controlled (no gates); paced schedules stay inside the envelope. "
          "Frame loss on bursts is a recorded known finding (design-level flow control). Real-time polls make each schedule cost seconds.",
     technique="TLA+ pipeline model (design, envelope) + simulated TNC schedules on real code judged by TLC trace validation",
     design="4 C13"),
  "C14": dict(
     level="model_checking",
-    text="Ardop.tla models Write, CRCFAULT re-send (three attempts), BUFFER reports, the flush lock and the control loop; TLC checks "
-         "WriteCountHonest, RetransmitOnCrcFault, FlushAfterBufferZero over all interleavings. Binding: a simulated ARDOP TNC on a "
+    text="Ardop.tla models N Writes, CRCFAULT re-send (three attempts), BUFFER reports (also reports that cross a frame on the line), "
+         "the flush lock and the control loop; TLC checks WriteCountHonest, NoAcceptedWriteLost, RetransmitOnCrcFault, "
+         "FlushAfterBufferZero over all interleavings and exhibits the named deviation and the known finding in separate configurations. Binding: a simulated ARDOP TNC on a "
          "CRC-protected in-memory serial line (own CRC-16 0x8810/0xFFFF and lexer) and a TCP port pair; schedules in child processes: "
          "write sizes 1..200 000, 0-3 CRCFAULTs, BUFFER sequences incl. never-zero, ARQ frames 1..65 530 bytes with reader buffers "
          "1..70 000, FEC/IDF/ERR frames and BUSY/NEWSTATE/PTT events interleaved, dial/listen, refusals, malformed control lines and "
